@@ -1,10 +1,99 @@
+//! falcon-sim: deterministic simulation with fault injection for falcon-rust.
+//!   falcon-sim check <C01|…> <quick|thorough>
+//!   falcon-sim replay <file>
+//!   falcon-sim selftest
+//! Exit codes: 0 property held on everything explored; 1 violation; 2 harness error.
+
+mod byz;
+mod deliveries;
+mod entropy;
+mod faults;
+mod guard;
+mod props;
+mod reference;
+mod report;
+mod rng;
+mod sched;
+mod selftest;
+mod variant;
+mod world;
+
+use report::Tier;
+
+fn seed_from_env() -> u64 {
+    match std::env::var("VERIF_SEED") {
+        Ok(s) => s.trim().parse::<u64>().unwrap_or_else(|_| rng::hash_bytes(0, s.as_bytes())),
+        Err(_) => report::DEFAULT_SEED,
+    }
+}
+
 fn main() {
-    let v = serde_json::json!({"a": 1});
-    println!("{}", v);
-    let (sk, pk) = falcon_rust::falcon512::keygen([1u8; 32]);
-    let sig = falcon_rust::falcon512::sign(b"x", &sk);
-    println!("{}", falcon_rust::falcon512::verify(b"x", &sig, &pk));
-    use pqcrypto_traits::sign::*;
-    let (ppk, psk) = pqcrypto_falcon::falcon512::keypair();
-    println!("{} {}", ppk.as_bytes().len(), psk.as_bytes().len());
+    guard::install_hook();
+    let args: Vec<String> = std::env::args().collect();
+    if args.len() < 2 {
+        eprintln!("usage: falcon-sim check <ID> <quick|thorough> | replay <file> | selftest");
+        std::process::exit(2);
+    }
+    let code = match args[1].as_str() {
+        "selftest" => selftest::run(),
+        "check" => {
+            if args.len() < 4 {
+                eprintln!("usage: falcon-sim check <ID> <quick|thorough>");
+                std::process::exit(2);
+            }
+            let tier = match args[3].as_str() {
+                "quick" => Tier::Quick,
+                "thorough" => Tier::Thorough,
+                _ => {
+                    eprintln!("unknown tier");
+                    std::process::exit(2)
+                }
+            };
+            let seed = seed_from_env();
+            println!("VERIF_SEED={} property={} tier={}", seed, args[2], tier.name());
+            if selftest::run() != 0 {
+                eprintln!("HARNESS-ERROR: self-test failed");
+                std::process::exit(2);
+            }
+            match args[2].as_str() {
+                "C03" => props::c03::check(tier, seed),
+                other => {
+                    eprintln!("unknown or not-applicable property {}", other);
+                    2
+                }
+            }
+        }
+        "replay" => {
+            let doc: serde_json::Value = match std::fs::read_to_string(&args[2]).ok().and_then(|s| serde_json::from_str(&s).ok()) {
+                Some(d) => d,
+                None => {
+                    eprintln!("cannot read replay file");
+                    std::process::exit(2)
+                }
+            };
+            let prop = doc.get("property").and_then(|p| p.as_str()).unwrap_or("");
+            let r = match prop {
+                "C03" => props::c03::replay(&doc),
+                _ => {
+                    eprintln!("replay: unknown property {:?}", prop);
+                    std::process::exit(2)
+                }
+            };
+            match r {
+                Some(class) => {
+                    println!("REPRODUCED class={}", class);
+                    1
+                }
+                None => {
+                    println!("NOT-REPRODUCED");
+                    0
+                }
+            }
+        }
+        _ => {
+            eprintln!("unknown command");
+            2
+        }
+    };
+    std::process::exit(code);
 }
